@@ -209,8 +209,10 @@ pub fn judge(root: &Path, h: &Hist) -> Result<Outcome, (String, String)> {
             // KNOWN FINDING (see known_findings.json): a sharded write whose in-memory load estimate says
             // the shard is much too big forces a maintenance of that shard AFTER its own insertion, so
             // reprieved entries end up behind the fresh entry (which may even be evicted at once).
-            let publish_ev = ev.iter().find(|e| (e.call == "rename" || e.call == "link") && e.path2.ends_with(&format!("/{}", ks.name)) && !e.path2.contains(".kismet_temp") && e.ok());
+            // (for a put onto an existing key the "insertion" is the link attempt that fails with EEXIST)
+            let publish_ev = ev.iter().find(|e| (e.call == "rename" || e.call == "link") && e.path2.ends_with(&format!("/{}", ks.name)) && !e.path2.contains(".kismet_temp"));
             let maintained_after_insertion = wspec.is_sharded()
+                && matches!(st.op, 0 | 1 | 5)
                 && publish_ev.map(|p| ev.iter().any(|o| o.call == "opendir" && o.ok() && o.seq > p.seq && p.path2 == format!("{}/{}", o.path, ks.name))).unwrap_or(false);
             if wrote_fresh && maintained_after_insertion {
                 out.known_after_insertion.push(ctx());
@@ -219,6 +221,17 @@ pub fn judge(root: &Path, h: &Hist) -> Result<Outcome, (String, String)> {
                     if let Some(v) = &e.val {
                         content.insert(ks.name.clone(), v.clone());
                     }
+                } else {
+                    enq.remove(&ks.name);
+                    content.remove(&ks.name);
+                }
+            } else if maintained_after_insertion {
+                // same known finding, for a put/ensure onto an existing key: the forced maintenance that
+                // follows re-stamps (reprieves) the entry the put has just marked
+                out.known_after_insertion.push(ctx());
+                if let Some((_, e)) = &now_at {
+                    enq.insert(ks.name.clone(), vnow);
+                    let _ = e;
                 } else {
                     enq.remove(&ks.name);
                     content.remove(&ks.name);
